@@ -252,11 +252,13 @@ def _proj_segment_cases(ctx):
     run = orders.make_func(f.node, absint.funcs(ctx, GEO, {}))
     bad = []
     n = 0
-    for (ax, ay), (dx, dy) in itertools.product(((1.0, 2.0), (-3.0, 0.5)), ((4, 0), (-4, 0), (4, 4), (-4, 4), (4, -4), (-4, -4), (3, 1), (-2, 5), (1, -6), (8, 0.5))):
+    # (bases include projected-coordinate magnitudes - Lambert-93 / UTM scale - where a tolerance tied to the coordinates is metres wide;
+    #  feet a few centimetres beyond an end belong to the end point)
+    for (ax, ay), (dx, dy) in itertools.product(((1.0, 2.0), (-3.0, 0.5), (652000.0, 6861000.0)), ((4, 0), (-4, 0), (4, 4), (-4, 4), (4, -4), (-4, -4), (3, 1), (-2, 5), (1, -6), (8, 0.5))):
         bx, by = ax + dx, ay + dy
         L = math.hypot(dx, dy)
         ux, uy = dx / L, dy / L
-        for t, off in itertools.product((-0.5, 0.0, 0.25, 0.5, 1.0, 1.5), (0.0, 1.5, -2.0)):
+        for t, off in itertools.product((-0.5, -0.03, 0.0, 0.25, 0.5, 1.0, 1.04, 1.5), (0.0, 1.5, -2.0)):
             qx, qy = ax + t * dx - off * uy, ay + t * dy + off * ux
             tc = max(0.0, min(1.0, t))
             wx, wy = ax + tc * dx, ay + tc * dy
@@ -268,8 +270,9 @@ def _proj_segment_cases(ctx):
                 raise shape_error('proj_segment not interpretable: %s' % ex, f.loc())
             except (ZeroDivisionError, IndexError, TypeError, ValueError, orders.Raised) as ex:
                 got = '%s: %s' % (type(ex).__name__, ex)
+            scale = max(1.0, abs(ax), abs(ay))                 # (coordinates of 7e6 carry 1e-9 of rounding each)
             ok = isinstance(got, (tuple, list)) and len(got) == 3 and all(isinstance(v, (int, float)) for v in got) and \
-                abs(got[0] - wd) <= 1e-9 * max(1.0, wd) and math.hypot(got[1] - wx, got[2] - wy) <= 1e-9 * max(1.0, L)
+                abs(got[0] - wd) <= 1e-9 * max(1.0, wd) * scale and math.hypot(got[1] - wx, got[2] - wy) <= 1e-9 * max(1.0, L) * scale
             if not ok and len(bad) < 3:
                 bad.append({'segment': [ax, ay, bx, by], 'query': [qx, qy], 'position of the foot along the segment (0 = first end, 1 = second end)': t,
                             'returned (distance, x, y)': list(got) if isinstance(got, (tuple, list)) else got, 'nearest point of the closed segment': [wx, wy], 'its distance': wd})
